@@ -554,6 +554,29 @@ def run(eng: Engine, ck: Check):
     bad_ = [k_ for k_, v_ in facts.items() if not v_]
     ck.ob('R-C07-SCAN', sd, sd.node, 'scan_directory skips directories under a child share and builds items that belong to the scanned directory', not bad_,
           f'not established: {bad_}', construct='scan_directory')
+    # a file that cannot be stat'ed (deleted between listing and stat, dangling link) is skipped; it does not end the scan: the whole
+    # result would be thrown away by scan_directory_files' catch-all, leaving new files unindexed and vanished files indexed
+    stats = [x for x in calls_in(sd.node) if call_name(x) in ('getmtime', 'getsize', 'getatime', 'getctime', 'stat', 'lstat') and unparse(x.func).startswith('os.')]
+    ck.floor('R-C07-SCAN.stat_sites', len(stats), 1)
+    OSERR = {'OSError', 'EnvironmentError', 'IOError', 'Exception', 'BaseException'}
+    for x in stats:
+        caught, why = False, 'not inside a try'
+        for t, part in eng.enclosing_trys(sd, x):
+            if part != 'body':
+                continue
+            for h in t.handlers:
+                hn = handler_type_names(h)
+                builtin = [n_ for n_ in hn if n_.split('.')[-1] in OSERR and n_.split('.')[0] not in sd.module.imports]
+                if not hn or builtin:
+                    caught = not any(isinstance(n_, ast.Raise) for n_ in walk_local(h))
+                    why = 'the handler re-raises' if not caught else ''
+                    break
+                shadow = [n_ for n_ in hn if n_ in sd.module.imports]
+                why = f'handlers {hn} do not cover OSError' + (f' ({shadow[0]} is {sd.module.imports[shadow[0]]}, not the builtin)' if shadow else '')
+            if caught:
+                break
+        ck.ob('R-C07-SCAN', sd, x, f'a file whose `{unparse(x.func)}` fails (vanished since the listing, dangling link) is skipped: OSError is caught at the file, the scan goes on',
+              caught, why + ': the error leaves scan_directory, scan_directory_files discards the whole scan result', construct=f'scan survives {call_name(x)} failure')
     # every consumer of _get_parent_directories takes the INNERMOST parent, consistently with the sort order of that function
     gpd0 = eng.func(SHARES, 'SharesManager._get_parent_directories')
     srt = [x for x in calls_in(gpd0.node) if call_name(x) in ('sorted', 'sort')]
